@@ -30,6 +30,27 @@ CHECKS["C05"] = dict(
     note="Bounded instance; configured weights compared after normalisation; rejection = ConfigError before the first evaluator call.",
     design="4 (C05)")
 
+CHECKS["C02"] = dict(
+    text="Affine-ensemble gradient kernel in TLA+ (Ensemble!GradEval): TLC checks that the reported quantity is the exact derivative "
+         "(finite-difference identities for mean and for variance, weights in force fixed), zero on fixed variables, failed/zero-weight "
+         "members excluded; scenarios (masks, injected designs incl. rank-deficient, slopes, weights, estimator/filter maps, failures, "
+         "merged/identical) replayed through EnsembleEvaluator (combined and split); Trace_Grad judges every gradient entry; the "
+         "conditioning precondition is evaluated on the reported perturbation matrix.",
+    note="Bounded catalogue instance; SVD conditioning computed by NumPy in the harness enters as a Boolean; std gradients compared through squares.",
+    design="4 (C02)")
+CHECKS["C03"] = dict(
+    text="Exhaustive fault enumeration by TLC over every subset of the R + R*P evaluations (2x2 quick; 3x2 and 2x3 thorough) x NaN column "
+         "x both thresholds x filter kind x estimator; flags iff, gating, values of the reduced ensemble (Ensemble!InvReduce) and exit code "
+         "of an optimizer step; each replayed combined, split and through a plan; judged by Trace_Grad.",
+    note="Bounded ensemble sizes; larger ensembles sampled; filter weights for a gradient are those of the function evaluation.",
+    design="4 (C03)")
+CHECKS["C10"] = dict(
+    text="Bounds.tla: code-shaped mirror/clip vs the allowed-output relation checked by TLC on value x bounds(+-inf) x type x "
+         "perturbation type x magnitude x samples -9..9 (thorough -20..20); every scenario replayed with injected integer samples, "
+         "reported perturbed variables and evaluator rows compared exactly (units of 1/4) by Trace_C10.",
+    note="Exact dyadic arithmetic; multi-width overshoots under MIRROR_BOTH may give any in-bounds value.",
+    design="4 (C10)")
+
 NOT_APPLICABLE = {}
 
 def main():
@@ -47,7 +68,7 @@ def main():
             "evidence_file": f"/verif/evidence/{pid}.json",
             "replay_cmd_template": f"{PY} -m rv.check {pid} --replay {{path}}",
             "engine": "tlc+rv",
-            "level_claimed": {"category": "model_checking", "text": c["text"], "design_ref": f"DESIGN.md section {c['design']}"},
+            "level_claimed": {"category": c.get("category", "model_checking"), "text": c["text"], "design_ref": f"DESIGN.md section {c['design']}"},
             "level_note": c["note"],
             "technique": c.get("technique", "TLA+ specification model-checked with TLC; TLC-generated scenarios replayed into ropt; recorded traces validated against the specification by TLC"),
         })
